@@ -45,7 +45,9 @@ Definition form_ok (csid form : N) : bool :=
 
 Definition chunk_wf (c : chunk) : bool :=
   (c_fmt c <=? 3) && form_ok (c_csid c) (c_form c) && (c_field c <? 4294967296) && (c_len c <? 16777216) &&
-  (c_tid c <? 256) && (c_sid c <? 4294967296) && forallb (fun b => b <? 256) (c_payload c).
+  (c_tid c <? 256) && (c_sid c <? 4294967296) && forallb (fun b => b <? 256) (c_payload c) &&
+  (* fields a format omits are 0 in the record *)
+  (if 2 <=? c_fmt c then (c_len c =? 0) && (c_tid c =? 0) else true) && (if 1 <=? c_fmt c then c_sid c =? 0 else true).
 
 (* ---------------------------------------------------------------- decoder state *)
 (* per chunk stream: the header fields of the most recent chunk and the partial payload *)
@@ -70,7 +72,9 @@ Definition header_after (prev : option cstream) (c : chunk) : option cstream :=
     if in_message s then
       (* continuation of a message: format 3; or format 0 restating the same header *)
       if c_fmt c =? 3 then
-        if Bool.eqb (16777215 <=? c_field c) (16777215 <=? cs_field s) then Some s else None
+        (* the extended field is repeated exactly when the chunk stream's last timestamp field had one;
+           without it the record carries the stream's field (normal form) *)
+        if (c_field c =? cs_field s) || ((16777215 <=? c_field c) && (16777215 <=? cs_field s)) then Some s else None
       else if c_fmt c =? 0 then
         if (c_field c =? cs_ts s) && (c_len c =? cs_len s) && (c_tid c =? cs_tid s) && (c_sid c =? cs_sid s)
         then Some {| cs_ts := cs_ts s; cs_field := c_field c; cs_len := cs_len s; cs_tid := cs_tid s; cs_sid := cs_sid s; cs_partial := cs_partial s |}
@@ -150,19 +154,22 @@ Fixpoint sdec_run (st : sdec_state) (cs : list chunk) : option (sdec_state * lis
 (* ---------------------------------------------------------------- byte front end *)
 Inductive parse_result := PChunk (c : chunk) (rest : bytes) | PNeedMore | PBad.
 
-Definition parse_chunk (st : sdec_state) (bs : bytes) : parse_result :=
+(* basic header: format, chunk stream id, form (1, 2 or 3 bytes), remaining bytes *)
+Definition parse_basic (bs : bytes) : option (N * N * N * bytes) :=
   match bs with
-  | [] => PNeedMore
+  | [] => None
   | b0 :: r0 =>
     let fmt := b0 / 64 in
     let low := b0 mod 64 in
-    let hdr : option (N * N * bytes) :=          (* csid, form, rest *)
-      if low =? 0 then match r0 with b1 :: r1 => Some (b1 + 64, 2, r1) | _ => None end
-      else if low =? 1 then match r0 with b1 :: b2 :: r2 => Some (b2 * 256 + b1 + 64, 3, r2) | _ => None end
-      else Some (low, 1, r0) in
-    match hdr with
-    | None => PNeedMore
-    | Some (csid, form, r) =>
+    if low =? 0 then match r0 with b1 :: r1 => Some (fmt, b1 + 64, 2, r1) | _ => None end
+    else if low =? 1 then match r0 with b1 :: b2 :: r2 => Some (fmt, b2 * 256 + b1 + 64, 3, r2) | _ => None end
+    else Some (fmt, low, 1, r0)
+  end.
+
+Definition parse_chunk (st : sdec_state) (bs : bytes) : parse_result :=
+  match parse_basic bs with
+  | None => PNeedMore
+  | Some (fmt, csid, form, r) =>
       let prev := lookup csid (sd_cs st) in
       let nfix := if fmt =? 0 then 11 else if fmt =? 1 then 7 else if fmt =? 2 then 3 else 0 in
       match take_n r nfix with
@@ -178,7 +185,7 @@ Definition parse_chunk (st : sdec_state) (bs : bytes) : parse_result :=
         match (if has_ext then take_n r1 4 else Some ([], r1)) with
         | None => PNeedMore
         | Some (eb, r2) =>
-          let field := if has_ext then of_be eb else if fmt =? 3 then (match prev with Some s => N.min (cs_field s) 16777214 | None => 0 end) else ts24 in
+          let field := if has_ext then of_be eb else if fmt =? 3 then (match prev with Some s => cs_field s | None => 0 end) else ts24 in
           let c0 := {| c_fmt := fmt; c_csid := csid; c_form := form; c_field := field;
                        c_len := if fmt <=? 1 then len else 0; c_tid := if fmt <=? 1 then tid else 0;
                        c_sid := if fmt =? 0 then sid else 0; c_payload := [] |} in
@@ -194,7 +201,6 @@ Definition parse_chunk (st : sdec_state) (bs : bytes) : parse_result :=
           end
         end
       end
-    end
   end.
 
 Inductive sdec_result := SOk (ms : list msg) | STruncated (ms : list msg) | SBad (ms : list msg) | SFuel.
